@@ -124,11 +124,38 @@ pub fn shard_run(tier: &str, seed: u64, replay_case: Option<usize>, shard: Shard
                     continue;
                 }
             };
-            let pts: Vec<(i64, u32)> = if *sweep == "sweep-versions" {
+            let mut pts: Vec<(i64, u32)> = if *sweep == "sweep-versions" {
                 points_u32(cfg.snapshot_versions).into_iter().map(|s| (0i64, s)).collect()
             } else {
                 points_days(cfg.snapshot_days).into_iter().map(|a| (a, 0u32)).collect()
             };
+            // the swept measure combined with the other measure held inside its low band and
+            // beyond its high threshold (urgency must be the maximum of the two)
+            let other_fixed: Vec<(i64, u32)> = {
+                let d = cfg.snapshot_days as i128;
+                let v = cfg.snapshot_versions as u64;
+                let mut o = vec![];
+                if *sweep == "sweep-versions" {
+                    for a in [d, d * 3 / 2] {
+                        if a >= 0 && a <= MAX_AGE_DAYS as i128 {
+                            o.push((a as i64, 0u32));
+                        }
+                    }
+                } else {
+                    for s in [v, v * 3 / 2] {
+                        if s <= (u32::MAX - 1) as u64 {
+                            o.push((0i64, s as u32));
+                        }
+                    }
+                }
+                o
+            };
+            let base_pts = pts.clone();
+            for (fa, fs) in &other_fixed {
+                for (a, s) in &base_pts {
+                    pts.push((a + fa, s + fs));
+                }
+            }
             let mut prev: Option<(Urg, (i64, u32))> = None;
             let mut first_low: Option<i128> = None;
             let mut first_high: Option<i128> = None;
@@ -152,10 +179,10 @@ pub fn shard_run(tier: &str, seed: u64, replay_case: Option<usize>, shard: Shard
                     }
                     Ok(u) => {
                         let m = if *sweep == "sweep-versions" { *since as i128 } else { *age as i128 };
-                        if u >= Urg::Low && first_low.is_none() {
+                        if pi < base_pts.len() && u >= Urg::Low && first_low.is_none() {
                             first_low = Some(m);
                         }
-                        if u == Urg::High && first_high.is_none() {
+                        if pi < base_pts.len() && u == Urg::High && first_high.is_none() {
                             first_high = Some(m);
                         }
                         cov.hit(format!("plant:{}:{}:{:?}", sweep, class_of(cfg, *sweep), u));
@@ -179,7 +206,8 @@ pub fn shard_run(tier: &str, seed: u64, replay_case: Option<usize>, shard: Shard
                             return out;
                         }
                         if let Some((pu, pm)) = prev {
-                            if u < pu {
+                            let grew = *age >= pm.0 && *since >= pm.1;
+                            if grew && u < pu {
                                 out.found.push(Found {
                                     property: "C12".into(),
                                     msg: format!(
